@@ -1051,6 +1051,7 @@ impl<'a, 'b> Gen<'a, 'b> {
             if luau && self.o.types { 1 } else { 0 }, // 18 type declaration
             if nested_ok { 1 } else { 0 },        // 19 recursion template
             1,                                    // 20 tables with string keys that are not identifiers
+            if refac { 2 } else { 1 },            // 21 a local table named like a library, with its own functions
         ];
         let choice = self.t.weighted(&w);
         Some(match choice {
@@ -1176,6 +1177,7 @@ impl<'a, 'b> Gen<'a, 'b> {
             }
             17 => self.method_call_stmt(ed)?,
             20 => self.odd_key_stmt(),
+            21 => self.shadowed_library_stmt(),
             18 => {
                 self.stat("type_decl");
                 self.counter += 1;
@@ -1611,6 +1613,28 @@ impl<'a, 'b> Gen<'a, 'b> {
         let n = self.t.choose(3);
         let args = self.expr_list(n, d);
         Stmt::Call(callg(["probe", "probe0", "probe2", "print"][self.t.choose(4)], args))
+    }
+
+    /// `local math = { sqrt = <observable function> }` used in statement, expression and operand
+    /// positions: rules that know the library (`math.sqrt(x)` => `x ^ 0.5`, `math.floor`) must see the local
+    fn shadowed_library_stmt(&mut self) -> Stmt {
+        self.stat("shadowed_library_table");
+        let (lib, f) = [("math", "sqrt"), ("math", "floor"), ("string", "format"), ("math", "sqrt")][self.t.choose(4)];
+        let body = parse(&format!("return function(...) emit(\"own {}.{}\", ...) return 100 end", lib, f), Mode::Lua51).expect("template").block;
+        let func = match &body.stmts[0] {
+            Stmt::Return(v) => v[0].clone(),
+            _ => Expr::Nil,
+        };
+        let a = self.small_pos();
+        let b = self.small_pos();
+        let c = self.small_pos();
+        Stmt::Do(Block::new(vec![
+            Stmt::Local { is_const: false, names: vec![Binding::new(lib.to_string())], values: vec![Expr::Table(vec![TableItem::Named(f.into(), func)])] },
+            Stmt::Call(callg("emit", vec![call(field(nm(lib), f), vec![a])])),
+            Stmt::Local { is_const: false, names: vec![Binding::new("r".to_string())], values: vec![bin(BinOp::Add, call(field(nm(lib), f), vec![b]), num(1.0))] },
+            Stmt::Call(call(field(nm(lib), f), vec![c])),
+            Stmt::Call(callg("emit", vec![nm("r")])),
+        ]))
     }
 
     /// tables keyed by strings that are not identifiers (non-ASCII letters, keywords, spaces, digits first):
